@@ -41,10 +41,10 @@ func geZero(v ssa.Value, fs []Fact) bool {
 		if sameValue(bo.X, v) {
 			if k, ok := constInt(bo.Y); ok {
 				switch {
-				case bo.Op == token.LSS && k <= 0 && !f.Truth, // !(v < 0)
-					bo.Op == token.GEQ && k >= 0 && f.Truth,   // v >= 0
-					bo.Op == token.GTR && k >= -1 && f.Truth,  // v > -1
-					bo.Op == token.LEQ && k <= -1 && !f.Truth: // !(v <= -1)
+				case bo.Op == token.LSS && !f.Truth && k >= 0, // !(v < k), k ≥ 0  ⇒ v ≥ 0
+					bo.Op == token.GEQ && f.Truth && k >= 0,   // v >= k, k ≥ 0
+					bo.Op == token.GTR && f.Truth && k >= -1,  // v > k, k ≥ −1
+					bo.Op == token.LEQ && !f.Truth && k >= -1: // !(v <= k), k ≥ −1
 					return true
 				}
 			}
@@ -52,8 +52,10 @@ func geZero(v ssa.Value, fs []Fact) bool {
 		if sameValue(bo.Y, v) {
 			if k, ok := constInt(bo.X); ok {
 				switch {
-				case bo.Op == token.GTR && k <= 0 && !f.Truth, // !(0 > v)
-					bo.Op == token.LEQ && k >= 0 && f.Truth: // 0 <= v
+				case bo.Op == token.GTR && !f.Truth && k >= 0, // !(k > v), k ≥ 0 ⇒ v ≥ 0
+					bo.Op == token.LEQ && f.Truth && k >= 0,   // k <= v, k ≥ 0
+					bo.Op == token.LSS && f.Truth && k >= -1,  // k < v, k ≥ −1
+					bo.Op == token.GEQ && !f.Truth && k >= -1: // !(k >= v), k ≥ −1
 					return true
 				}
 			}
@@ -136,6 +138,13 @@ func (p *Prog) provesGE0(v ssa.Value, at *ssa.BasicBlock, fs []Fact, depth int) 
 		}
 		return true
 	}
+	// a field of a struct returned by a small module function (bounds bundled
+	// in a struct and clamped by a method)
+	if call, k, ok := structFieldOfCall(v); ok {
+		return p.fieldBoundInCallee(call, k, func(fv ssa.Value, fs []Fact, callee *ssa.Function) bool {
+			return p.provesGE0(fv, nil, fs, depth+1)
+		})
+	}
 	// several predecessors: the bound may hold on each incoming edge separately
 	if at != nil && len(at.Preds) > 1 {
 		return factsOnAllEdges(at, func(efs []Fact) bool { return geZero(v, efs) })
@@ -184,6 +193,22 @@ func (p *Prog) provesLTSize(v, size ssa.Value, at *ssa.BasicBlock, fs []Fact, de
 			}
 		}
 		return true
+	}
+	if call, k, ok := structFieldOfCall(v); ok {
+		// the callee's own size parameter must be bound to `size` at this call
+		callee := call.Call.StaticCallee()
+		var calleeSize *ssa.Parameter
+		for i, a := range call.Call.Args {
+			if sameValue(a, size) && i < len(callee.Params) {
+				calleeSize = callee.Params[i]
+			}
+		}
+		if calleeSize == nil {
+			return false
+		}
+		return p.fieldBoundInCallee(call, k, func(fv ssa.Value, fs []Fact, _ *ssa.Function) bool {
+			return p.provesLTSize(fv, calleeSize, nil, fs, depth+1)
+		})
 	}
 	if at != nil && len(at.Preds) > 1 {
 		return factsOnAllEdges(at, func(efs []Fact) bool { return ltSize(v, size, efs) })
@@ -555,3 +580,132 @@ var ruleBCEExec = &Rule{
 }
 
 func init() { register(ruleBCEExec) }
+
+// structFieldOfCall: v is a load of field #k of a local struct variable whose
+// only whole-struct store is the result of a static call to a module function.
+func structFieldOfCall(v ssa.Value) (*ssa.Call, int, bool) {
+	u, ok := v.(*ssa.UnOp)
+	if !ok || u.Op != token.MUL {
+		return nil, 0, false
+	}
+	fa, ok := u.X.(*ssa.FieldAddr)
+	if !ok {
+		return nil, 0, false
+	}
+	a, ok := fa.X.(*ssa.Alloc)
+	if !ok {
+		return nil, 0, false
+	}
+	// the last whole-struct store before the load, in the same block
+	var last *ssa.Store
+	for _, ins := range u.Block().Instrs {
+		if ins == ssa.Instruction(u) {
+			break
+		}
+		if st, ok := ins.(*ssa.Store); ok {
+			if st.Addr == ssa.Value(a) {
+				last = st
+			} else if f2, ok := st.Addr.(*ssa.FieldAddr); ok && f2.X == ssa.Value(a) && f2.Field == fa.Field {
+				last = nil // the field is overwritten afterwards
+			}
+		}
+	}
+	if last == nil {
+		return nil, 0, false
+	}
+	c, ok := last.Val.(*ssa.Call)
+	if !ok || c.Call.StaticCallee() == nil || !inModule(c.Call.StaticCallee()) || c.Call.StaticCallee().Blocks == nil {
+		return nil, 0, false
+	}
+	return c, fa.Field, true
+}
+
+// fieldBoundInCallee enumerates the acyclic paths of the callee to its returns.
+// The callee must return (a load of) one local struct variable; on each path
+// field #k of it is either the value last stored into it on the path, or, if
+// nothing was stored, the field of the incoming struct, about which the
+// path's branch conditions speak. holds is asked about that value under the
+// path's facts; all paths must pass.
+func (p *Prog) fieldBoundInCallee(call *ssa.Call, k int, holds func(v ssa.Value, fs []Fact, callee *ssa.Function) bool) bool {
+	callee := call.Call.StaticCallee()
+	paths := 0
+	okAll := true
+	var walk func(b *ssa.BasicBlock, fs []Fact, lastStore ssa.Value, seen map[*ssa.BasicBlock]bool)
+	walk = func(b *ssa.BasicBlock, fs []Fact, lastStore ssa.Value, seen map[*ssa.BasicBlock]bool) {
+		if !okAll || seen[b] || paths > 256 {
+			if seen[b] || paths > 256 {
+				okAll = false // a loop or too many paths: not decided
+			}
+			return
+		}
+		seen[b] = true
+		defer delete(seen, b)
+		for _, ins := range b.Instrs {
+			switch x := ins.(type) {
+			case *ssa.Store:
+				if fa, ok := x.Addr.(*ssa.FieldAddr); ok && fa.Field == k {
+					if _, isLocal := fa.X.(*ssa.Alloc); isLocal {
+						lastStore = x.Val
+					}
+				}
+			case *ssa.Return:
+				paths++
+				if len(x.Results) != 1 {
+					okAll = false
+					return
+				}
+				ld, ok := x.Results[0].(*ssa.UnOp)
+				if !ok {
+					okAll = false
+					return
+				}
+				al, ok := ld.X.(*ssa.Alloc)
+				if !ok {
+					okAll = false
+					return
+				}
+				v := lastStore
+				if v == nil {
+					// untouched: any load of the same field of the same local stands for it
+					v = fieldLoadOf(callee, al, k)
+					if v == nil {
+						okAll = false
+						return
+					}
+				}
+				if !holds(v, fs, callee) {
+					okAll = false
+				}
+				return
+			case *ssa.If:
+				for si, s := range b.Succs {
+					nfs := appendFact(append([]Fact{}, fs...), Fact{x.Cond, si == 0}, 0)
+					walk(s, nfs, lastStore, seen)
+				}
+				return
+			case *ssa.Jump:
+				walk(b.Succs[0], fs, lastStore, seen)
+				return
+			case *ssa.Panic:
+				return
+			}
+		}
+	}
+	walk(callee.Blocks[0], nil, nil, map[*ssa.BasicBlock]bool{})
+	return okAll && paths > 0
+}
+
+// fieldLoadOf: some load of field #k of the local struct al in fn (all such
+// loads denote the same value on a path that does not store the field).
+func fieldLoadOf(fn *ssa.Function, al *ssa.Alloc, k int) ssa.Value {
+	for _, b := range fn.Blocks {
+		for _, ins := range b.Instrs {
+			if u, ok := ins.(*ssa.UnOp); ok && u.Op == token.MUL {
+				if fa, ok := u.X.(*ssa.FieldAddr); ok && fa.X == ssa.Value(al) && fa.Field == k {
+					return u
+				}
+			}
+		}
+	}
+	return nil
+}
